@@ -168,6 +168,9 @@ def or_alt_pool():
     for t, k, rules in sets:
         text = '{' + ', '.join(['type: "%s"' % t] + ['%s: %s' % (n, v) for n, v in rules]) + '}'
         out.append((text, ['L'] + leaf_tokens(k, rules), k if not rules or all(n in ('nullable',) for n, _ in rules) else None))
+    # type names as alternatives (registered types of c04.TYPES: @u = 1, @t = "s", @o an object), bare and as rule-sets
+    out += [('"@u"', ['r', hx('u'), '0'], 'i'), ('"@t"', ['r', hx('t'), '0'], 's'), ('"@o"', ['r', hx('o'), '0'], None),
+            ('{type: "@u"}', ['r', hx('u'), '0'], 'i'), ('{type: "@t", nullable: true}', ['r', hx('t'), '1'], 's'), ('{type: "@o", nullable: true}', ['r', hx('o'), '1'], None)]
     out.append(('{type: "datetime"}', ['L'] + leaf_tokens('s', []), None))
     out.append(('{type: "enum", enum: [5, "a", null]}', ['L'] + leaf_tokens('s', [('enum', '[5, "a", null]')]), None))
     out.append(('{type: "enum", enum: [1.5, true]}', ['L'] + leaf_tokens('s', [('enum', '[1.5, true]')]), None))
@@ -195,6 +198,11 @@ def gen_tree(rng, depth, pool):
     if depth >= 3 or r < 0.4:
         if rng.random() < 0.12:       # the value is written as a type name (registered types of c04.TYPES; @r and @l are recursive)
             return ('F', rng.choice(['@t', '@u', '@o', '@r', '@l']), rng.random() < 0.25)
+        if rng.random() < 0.06:       # a type choice
+            return ('C', rng.sample(['@t', '@u', '@o', '@r', '@l'], rng.randint(2, 3)), rng.random() < 0.2)
+        if rng.random() < 0.06:       # a scalar example with type: "@name"
+            ex, name = rng.choice([('5', '@u'), ('0', '@u'), ('"a"', '@t'), ('"abcd"', '@t')])
+            return ('T', ex, name, rng.random() < 0.25)
         if rng.random() < 0.25:
             return gen_or(rng)
         ex, kind, rules = rng.choice(pool)
@@ -224,6 +232,10 @@ def tree_text(t, indent, extra, comma):
         return t[1] + comma + ann_of(list(t[3]) + extra)
     if t[0] == 'F':
         return t[1] + comma + ann_of(([('nullable', 'true')] if t[2] else []) + extra)
+    if t[0] == 'C':
+        return ' | '.join(t[1]) + comma + ann_of(([('nullable', 'true')] if t[2] else []) + extra)
+    if t[0] == 'T':
+        return t[1] + comma + ann_of([('type', '"%s"' % t[2])] + ([('nullable', 'true')] if t[3] else []) + extra)
     if t[0] == 'R':
         return t[1] + comma + ann_of([('or', '[' + ', '.join(a[0] for a in t[2]) + ']')] + ([('nullable', 'true')] if t[3] else []) + extra)
     if t[0] == 'A':
@@ -240,6 +252,10 @@ def tree_tokens(t):
         return ['V', hx(t[1])] + leaf_tokens(t[2], t[3])
     if t[0] == 'F':
         return ['F', hx(t[1][1:]), '1' if t[2] else '0']
+    if t[0] == 'C':
+        return ['C', str(len(t[1])), '1' if t[2] else '0'] + [hx(n[1:]) for n in t[1]]
+    if t[0] == 'T':
+        return ['T', hx(t[1]), hx(t[2][1:]), '1' if t[3] else '0']
     if t[0] == 'R':
         out = ['R', hx(t[1]), str(len(t[2])), '1' if t[3] else '0']
         for a in t[2]:
@@ -292,8 +308,8 @@ def canon_node(o):
     REF = '#/components/schemas/'
     if set(o.keys()) == {'$ref'} and o['$ref'].startswith(REF):
         return 'F(' + hx(o['$ref'][len(REF):]) + ')'
-    if set(o.keys()) == {'allOf', 'nullable'} and o['nullable'] is True and len(o['allOf']) == 1 and set(o['allOf'][0].keys()) == {'$ref'}:
-        return 'F(nullable;' + hx(o['allOf'][0]['$ref'][len(REF):]) + ')'
+    if 'allOf' in o and set(o.keys()) <= {'allOf', 'nullable', 'example'} and len(o['allOf']) == 1 and set(o['allOf'][0].keys()) == {'$ref'}:
+        return 'F(' + ('nullable;' if o.get('nullable') is True else '') + hx(o['allOf'][0]['$ref'][len(REF):]) + ')'
     if 'anyOf' in o and t is None:
         return 'Y(' + ';'.join((['nullable'] if o.get('nullable') is True else []) + ['[' + ','.join(canon_node(x) for x in o['anyOf']) + ']']) + ')'
     if t == 'array':
